@@ -283,11 +283,15 @@ func describeArray(v ssa.Value, handoff ssa.Instruction) arrayDesc {
 		// symbolic total: Σ over append sites of (elements × Π trip counts of the enclosing loops)
 		total := gpoly{}
 		for _, a := range apps {
-			n := appendCount(a)
-			if n < 0 {
+			var np gpoly
+			if n := appendCount(a); n >= 0 {
+				np = gconst(int64(n))
+			} else if sp, ok := spreadLen(a); ok {
+				np = sp
+			} else {
 				return d
 			}
-			t, ok := siteTotal(a, n, handoff)
+			t, ok := siteTotal(a, np, handoff)
 			if !ok {
 				return d
 			}
@@ -305,10 +309,10 @@ func describeArray(v ssa.Value, handoff ssa.Instruction) arrayDesc {
 
 // siteTotal: how many elements the append site contributes in total, as a canonical product — only when the
 // site executes unconditionally in counted / range loops whose trip counts are recognised.
-func siteTotal(a *ssa.Call, n int, handoff ssa.Instruction) (gpoly, bool) {
+func siteTotal(a *ssa.Call, n gpoly, handoff ssa.Instruction) (gpoly, bool) {
 	fn := a.Parent()
 	loops := ssau.Loops(fn)
-	total := gconst(int64(n))
+	total := n
 	b := a.Block()
 	var enclosing []*ssau.Loop
 	for _, l := range loops {
@@ -377,6 +381,126 @@ func tripCount(l *ssau.Loop) (gpoly, bool) {
 			continue
 		}
 		return polyOf(cmp.Y, 0).add(gconst(start), -1), true
+	}
+	return nil, false
+}
+
+// spreadLen: append(dst, s...) where s is (one result of) a call to a repository function whose returned slice is
+// a make([]T, L) with L a polynomial in len() of its slice parameters and its integer parameters: the number of
+// elements added, with the callee's parameters replaced by the caller's arguments.
+func spreadLen(a *ssa.Call) (gpoly, bool) {
+	if len(a.Call.Args) != 2 {
+		return nil, false
+	}
+	var call *ssa.Call
+	idx := 0
+	switch x := a.Call.Args[1].(type) {
+	case *ssa.Extract:
+		c, ok := x.Tuple.(*ssa.Call)
+		if !ok {
+			return nil, false
+		}
+		call, idx = c, x.Index
+	case *ssa.Call:
+		call = x
+	default:
+		return nil, false
+	}
+	callee := call.Call.StaticCallee()
+	if callee == nil || len(callee.Blocks) == 0 || call.Call.IsInvoke() {
+		return nil, false
+	}
+	bind := map[*ssa.Parameter]ssa.Value{}
+	for i, p := range callee.Params {
+		if i < len(call.Call.Args) {
+			bind[p] = call.Call.Args[i]
+		}
+	}
+	var res gpoly
+	nret := 0
+	okAll := true
+	ssau.AllInstrs(callee, func(in ssa.Instruction) {
+		ret, ok := in.(*ssa.Return)
+		if !ok || idx >= len(ret.Results) {
+			return
+		}
+		nret++
+		var ms *ssa.MakeSlice
+		n := 0
+		for r := range aliasRoots(ret.Results[idx]) {
+			switch y := r.(type) {
+			case *ssa.MakeSlice:
+				ms = y
+				n++
+			case *ssa.Phi, *ssa.Slice, *ssa.UnOp, *ssa.Alloc:
+			default:
+				n += 2
+			}
+		}
+		if ms == nil || n != 1 {
+			okAll = false
+			return
+		}
+		// the slice must keep its made length: no append to it
+		for r := range aliasRoots(ret.Results[idx]) {
+			if c, ok := r.(*ssa.Call); ok && ssau.Builtin(c) == "append" {
+				okAll = false
+			}
+		}
+		l, ok := calleeLenPoly(ms.Len, bind, 0)
+		if !ok {
+			okAll = false
+			return
+		}
+		if res == nil {
+			res = l
+		} else if !res.equal(l) {
+			okAll = false
+		}
+	})
+	if nret == 0 || !okAll || res == nil {
+		return nil, false
+	}
+	return res, true
+}
+
+func calleeLenPoly(v ssa.Value, bind map[*ssa.Parameter]ssa.Value, depth int) (gpoly, bool) {
+	if depth > 8 {
+		return nil, false
+	}
+	switch x := v.(type) {
+	case *ssa.Const:
+		if k, ok := ssau.ConstInt(x); ok {
+			return gconst(k), true
+		}
+	case *ssa.Parameter:
+		if a, ok := bind[x]; ok {
+			return polyOf(a, 0), true
+		}
+	case *ssa.Convert:
+		return calleeLenPoly(x.X, bind, depth+1)
+	case *ssa.BinOp:
+		a, ok1 := calleeLenPoly(x.X, bind, depth+1)
+		b, ok2 := calleeLenPoly(x.Y, bind, depth+1)
+		if ok1 && ok2 {
+			switch x.Op {
+			case token.ADD:
+				return a.add(b, 1), true
+			case token.SUB:
+				return a.add(b, -1), true
+			case token.MUL:
+				return a.mul(b), true
+			}
+		}
+	case *ssa.Call:
+		if ssau.Builtin(x) == "len" && len(x.Call.Args) == 1 {
+			if p, ok := x.Call.Args[0].(*ssa.Parameter); ok {
+				if a, ok := bind[p]; ok {
+					atom := strings.ReplaceAll("len("+canonExpr(a, 0)+")", "*", "×")
+					return gpoly{atom: 1}, true
+				}
+			}
+		}
 	}
 	return nil, false
 }
